@@ -233,7 +233,8 @@ theorem checkin_gen {N : Nat} {db : DB} (b : Bool) (hg : Gen N db true) : Gen N 
     exact return_gen hg _ rfl rfl
   | rollback =>
     simp only []
-    cases b with
+    generalize (b || db.skipsRollback) = bb
+    cases bb with
     | true =>
       simp only [if_true, Bool.false_eq_true, if_false]
       exact return_gen hg _ rfl rfl
@@ -294,7 +295,8 @@ theorem checkin_gen_held {N : Nat} {db : DB} (b : Bool) (hg : Gen N db true) : G
     | none => simp
     | rollback =>
       simp only []
-      cases b with
+      generalize (b || db.skipsRollback) = bb
+      cases bb with
       | true => simp
       | false =>
         simp only [Bool.false_eq_true, if_false]
@@ -438,7 +440,8 @@ theorem checkin_mono (db : DB) (b : Bool) : Mono db (db.checkin b) := by
   | none => simp [Mono]
   | rollback =>
     simp only []
-    cases b with
+    generalize (b || db.skipsRollback) = bb
+    cases bb with
     | true => simp [Mono]
     | false =>
       simp only [Bool.false_eq_true, if_false]
@@ -880,14 +883,60 @@ structure PoolSame (c c' : Conn) : Prop where
   hasDbapi : c'.hasDbapi = c.hasDbapi
   rid : c'.db.raw.rid = c.db.raw.rid
   listener : c'.db.listener = c.db.listener
+  faults : ∀ f, f ∈ c'.db.faults → f ∈ c.db.faults     -- no fault gets armed
 
-theorem PoolSame.refl (c : Conn) : PoolSame c c := ⟨rfl, rfl, rfl, rfl, rfl⟩
+theorem PoolSame.refl (c : Conn) : PoolSame c c := ⟨rfl, rfl, rfl, rfl, rfl, fun _ h => h⟩
 theorem PoolSame.trans {a b c : Conn} (h1 : PoolSame a b) (h2 : PoolSame b c) : PoolSame a c :=
   ⟨h2.idle.trans h1.idle, h2.invalTime.trans h1.invalTime, h2.hasDbapi.trans h1.hasDbapi,
-   h2.rid.trans h1.rid, h2.listener.trans h1.listener⟩
+   h2.rid.trans h1.rid, h2.listener.trans h1.listener, fun f h => h1.faults f (h2.faults f h)⟩
 
-theorem poolSame_data (c : Conn) (db' : DB) (h : DataOnly c.db db') (hl : db'.listener = c.db.listener) :
-    PoolSame c { c with db := db' } := ⟨h.idle, h.invalTime, rfl, h.rid, hl⟩
+theorem poolSame_data (c : Conn) (db' : DB) (h : DataOnly c.db db') (hl : db'.listener = c.db.listener)
+    (hf : ∀ f, f ∈ db'.faults → f ∈ c.db.faults) :
+    PoolSame c { c with db := db' } := ⟨h.idle, h.invalTime, rfl, h.rid, hl, hf⟩
+
+theorem takeFault_faults (db : DB) (p : FPoint) : ∀ f, f ∈ (db.takeFault p).2.faults → f ∈ db.faults := by
+  unfold DB.takeFault
+  split
+  · exact fun _ h => h
+  · exact fun f h => List.mem_of_mem_erase h
+
+theorem takeFault_some_mem {db db1 : DB} {p : FPoint} {k : FKind} (h : db.takeFault p = (some k, db1)) :
+    (p, k) ∈ db.faults := by
+  unfold DB.takeFault at h
+  split at h
+  · simp at h
+  · rename_i f hf
+    simp only [Prod.mk.injEq, Option.some.injEq] at h
+    have hm := List.mem_of_find?_eq_some hf
+    have hp := List.find?_some hf
+    have e : f = (p, k) := by
+      obtain ⟨a, b⟩ := f
+      simp only [beq_iff_eq] at hp
+      simp only at h
+      rw [hp, h.1]
+    rw [← e]; exact hm
+
+theorem apply_faults (db : DB) (q : Sql) (db' : DB) (r : Res) (h : db.apply q = (some db', r)) :
+    db'.faults = db.faults := by
+  unfold DB.apply at h
+  split at h
+  · split at h
+    · simp only [Prod.mk.injEq, Option.some.injEq] at h; rw [← h.1]; unfold DB.write; split <;> rfl
+    · simp at h
+  · simp only [Prod.mk.injEq, Option.some.injEq] at h; rw [← h.1]; unfold DB.write; split <;> rfl
+  · simp only [Prod.mk.injEq, Option.some.injEq] at h; rw [← h.1]
+  · simp only [Prod.mk.injEq, Option.some.injEq] at h; rw [← h.1]
+  · split at h
+    · simp only [Prod.mk.injEq, Option.some.injEq] at h; rw [← h.1]
+    · simp at h
+  · split at h
+    · simp only [Prod.mk.injEq, Option.some.injEq] at h; rw [← h.1]
+    · simp at h
+
+/-- an armed ROLLBACK failure that is a disconnect / an interrupt: met by the error handler's
+    own autorollback it invalidates connection and pool although the error raised is the
+    ordinary one -/
+def RbBad (c : Conn) : Prop := ∃ f, f ∈ c.db.faults ∧ f.1 = .rollback ∧ f.2 ≠ .err
 
 theorem takeFault_listener (db : DB) (p : FPoint) : (db.takeFault p).2.listener = db.listener := by
   unfold DB.takeFault; split <;> rfl
@@ -909,26 +958,38 @@ theorem apply_listener (db : DB) (q : Sql) (db' : DB) (r : Res) (h : db.apply q 
     · simp only [Prod.mk.injEq, Option.some.injEq] at h; rw [← h.1]
     · simp at h
 
-theorem plainError_poolSame (c : Conn) : PoolSame c c.plainError.1 := by
+theorem plainError_poolSame (c : Conn) : PoolSame c c.plainError.1 ∨ RbBad c := by
   unfold Conn.plainError
   split
-  · exact PoolSame.refl c
+  · exact Or.inl (PoolSame.refl c)
   · split
-    · cases hf : c.db.takeFault .rollback with
-      | mk o db1 =>
-        have hs : DataOnly c.db db1 := by
-          have := takeFault_dataOnly c.db .rollback; rw [hf] at this; exact this
-        have hl : db1.listener = c.db.listener := by
-          have := takeFault_listener c.db .rollback; rw [hf] at this; exact this
-        cases o with
-        | some _ => exact poolSame_data c db1 hs hl
-        | none => exact poolSame_data c _ (hs.trans (rollback_dataOnly db1)) hl
-    · exact PoolSame.refl c
+    · split
+      · exact Or.inl (PoolSame.refl c)
+      · cases hf : c.db.takeFault .rollback with
+        | mk o db1 =>
+          have hs : DataOnly c.db db1 := by
+            have := takeFault_dataOnly c.db .rollback; rw [hf] at this; exact this
+          have hl : db1.listener = c.db.listener := by
+            have := takeFault_listener c.db .rollback; rw [hf] at this; exact this
+          have hfs : ∀ f, f ∈ db1.faults → f ∈ c.db.faults := by
+            have := takeFault_faults c.db .rollback; rw [hf] at this; exact this
+          cases o with
+          | some k =>
+            cases k with
+            | err => exact Or.inl (poolSame_data c db1 hs hl hfs)
+            | disc => exact Or.inr ⟨_, takeFault_some_mem hf, rfl, by simp⟩
+            | kbi => exact Or.inr ⟨_, takeFault_some_mem hf, rfl, by simp⟩
+          | none => exact Or.inl (poolSame_data c _ (hs.trans (rollback_dataOnly db1)) hl hfs)
+    · exact Or.inl (PoolSame.refl c)
 
 /-- either nothing happened to connection and pool, or the call reports a disconnect (or an
     interrupt) -/
 def PSorDisc (c : Conn) (x : Conn × Res) : Prop :=
-  PoolSame c x.1 ∨ x.2 = .disconnect ∨ x.2 = .interrupted
+  PoolSame c x.1 ∨ x.2 = .disconnect ∨ x.2 = .interrupted ∨ RbBad c
+
+theorem RbBad.of_poolSame {c c1 : Conn} (h : PoolSame c c1) (hb : RbBad c1) : RbBad c := by
+  obtain ⟨f, hm, h1, h2⟩ := hb
+  exact ⟨f, h.faults f hm, h1, h2⟩
 
 theorem dbapiError_ps (c : Conn) (k : FKind) (hl : c.db.listener ≠ .forceDisc) :
     PSorDisc c (c.dbapiError k) := by
@@ -942,9 +1003,11 @@ theorem dbapiError_ps (c : Conn) (k : FKind) (hl : c.db.listener ≠ .forceDisc)
     unfold Conn.discError; split <;> rfl
   | err =>
     simp only [hl', Bool.false_eq_true, if_false]
-    left; exact plainError_poolSame c
+    rcases plainError_poolSame c with h | h
+    · exact Or.inl h
+    · exact Or.inr (Or.inr (Or.inr h))
   | kbi =>
-    right; right
+    right; right; left
     simp [Conn.kbiError]
 
 theorem andThen_ps {c : Conn} {x : Conn × Res} {f : Conn → Conn × Res} (h1 : PSorDisc c x)
@@ -952,20 +1015,26 @@ theorem andThen_ps {c : Conn} {x : Conn × Res} {f : Conn → Conn × Res} (h1 :
   obtain ⟨c1, r⟩ := x
   rcases h1 with h1 | h1
   · cases r <;> first
-      | (rcases h2 c1 h1 with h | h
+      | (rcases h2 c1 h1 with h | h | h | h
          · exact Or.inl (h1.trans h)
-         · exact Or.inr h)
+         · exact Or.inr (Or.inl h)
+         · exact Or.inr (Or.inr (Or.inl h))
+         · exact Or.inr (Or.inr (Or.inr (RbBad.of_poolSame h1 h))))
       | exact Or.inl h1
-  · rcases h1 with h1 | h1
+  · rcases h1 with h1 | h1 | h1
     · simp only at h1; subst h1; exact Or.inr (Or.inl rfl)
-    · simp only at h1; subst h1; exact Or.inr (Or.inr rfl)
+    · simp only at h1; subst h1; exact Or.inr (Or.inr (Or.inl rfl))
+    · exact Or.inr (Or.inr (Or.inr h1))
 
 theorem dbapiCall_ps (c : Conn) (p : FPoint) (f : DB → DB) (hf : ∀ db, DataOnly db (f db))
-    (hfl : ∀ db, (f db).listener = db.listener) (hl : c.db.listener ≠ .forceDisc) :
+    (hfl : ∀ db, (f db).listener = db.listener) (hl : c.db.listener ≠ .forceDisc)
+    (hff : ∀ db x, x ∈ (f db).faults → x ∈ db.faults) :
     PSorDisc c (c.dbapiCall p f) := by
   unfold Conn.dbapiCall
   cases hf' : c.db.takeFault p with
   | mk o db1 =>
+    have hfs : ∀ f, f ∈ db1.faults → f ∈ c.db.faults := by
+      have := takeFault_faults c.db p; rw [hf'] at this; exact this
     have hs : DataOnly c.db db1 := by
       have := takeFault_dataOnly c.db p; rw [hf'] at this; exact this
     have hl1 : db1.listener = c.db.listener := by
@@ -973,16 +1042,22 @@ theorem dbapiCall_ps (c : Conn) (p : FPoint) (f : DB → DB) (hf : ∀ db, DataO
     cases o with
     | some k =>
       simp only []
-      have h0 := poolSame_data c db1 hs hl1
-      rcases dbapiError_ps ({ c with db := db1 } : Conn) k (by show db1.listener ≠ _; rw [hl1]; exact hl) with h | h
+      have h0 := poolSame_data c db1 hs hl1 hfs
+      rcases dbapiError_ps ({ c with db := db1 } : Conn) k (by show db1.listener ≠ _; rw [hl1]; exact hl)
+        with h | h | h | h
       · exact Or.inl (h0.trans h)
-      · exact Or.inr h
-    | none => exact Or.inl (poolSame_data c _ (hs.trans (hf db1)) ((hfl db1).trans hl1))
+      · exact Or.inr (Or.inl h)
+      · exact Or.inr (Or.inr (Or.inl h))
+      · exact Or.inr (Or.inr (Or.inr (RbBad.of_poolSame h0 h)))
+    | none => exact Or.inl (poolSame_data c _ (hs.trans (hf db1)) ((hfl db1).trans hl1)
+        (fun x hx => hfs x (hff db1 x hx)))
 
 theorem runSql_ps (c : Conn) (q : Sql) (hl : c.db.listener ≠ .forceDisc) : PSorDisc c (c.runSql q) := by
   unfold Conn.runSql
   cases hf' : c.db.takeFault .execute with
   | mk o db1 =>
+    have hfs : ∀ f, f ∈ db1.faults → f ∈ c.db.faults := by
+      have := takeFault_faults c.db .execute; rw [hf'] at this; exact this
     have hs : DataOnly c.db db1 := by
       have := takeFault_dataOnly c.db .execute; rw [hf'] at this; exact this
     have hl1 : db1.listener = c.db.listener := by
@@ -990,28 +1065,35 @@ theorem runSql_ps (c : Conn) (q : Sql) (hl : c.db.listener ≠ .forceDisc) : PSo
     cases o with
     | some k =>
       simp only []
-      have h0 := poolSame_data c db1 hs hl1
-      rcases dbapiError_ps ({ c with db := db1 } : Conn) k (by show db1.listener ≠ _; rw [hl1]; exact hl) with h | h
+      have h0 := poolSame_data c db1 hs hl1 hfs
+      rcases dbapiError_ps ({ c with db := db1 } : Conn) k (by show db1.listener ≠ _; rw [hl1]; exact hl)
+        with h | h | h | h
       · exact Or.inl (h0.trans h)
-      · exact Or.inr h
+      · exact Or.inr (Or.inl h)
+      · exact Or.inr (Or.inr (Or.inl h))
+      · exact Or.inr (Or.inr (Or.inr (RbBad.of_poolSame h0 h)))
     | none =>
       simp only []
       cases ha : c.db.apply q with
       | mk o2 r =>
         cases o2 with
-        | some db2 => exact Or.inl (poolSame_data c db2 (apply_dataOnly _ _ _ _ ha) (apply_listener _ _ _ _ ha))
+        | some db2 =>
+          exact Or.inl (poolSame_data c db2 (apply_dataOnly _ _ _ _ ha) (apply_listener _ _ _ _ ha)
+            (fun x hx => by rw [apply_faults _ _ _ _ ha] at hx; exact hx))
         | none =>
           have hl' : (c.db.listener == .forceDisc) = false := by simpa using hl
           have e : c.dbapiError .err = c.plainError := by simp [Conn.dbapiError, hl']
           simp only [e]
-          exact Or.inl (plainError_poolSame c)
+          rcases plainError_poolSame c with h | h
+          · exact Or.inl h
+          · exact Or.inr (Or.inr (Or.inr h))
 
 theorem execute_ps (c : Conn) (q : Sql) (hd : c.hasDbapi = true) (hl : c.db.listener ≠ .forceDisc) :
     PSorDisc c (c.execute q) := by
   have hcp : c.connProp = (c, .ok) := by simp [Conn.connProp, hd]
   unfold Conn.execute
   rw [hcp, andThen_ok]
-  refine andThen_ps (dbapiCall_ps c .cursor id (fun db => DataOnly.refl db) (fun _ => rfl) hl) ?_
+  refine andThen_ps (dbapiCall_ps c .cursor id (fun db => DataOnly.refl db) (fun _ => rfl) hl (fun _ _ h => h)) ?_
   intro c1 h1
   have hd1 : c1.hasDbapi = true := by rw [h1.hasDbapi]; exact hd
   have hl1 : c1.db.listener ≠ .forceDisc := by rw [h1.listener]; exact hl
@@ -1026,7 +1108,7 @@ theorem execute_ps (c : Conn) (q : Sql) (hd : c.hasDbapi = true) (hl : c.db.list
         · exact Or.inl (PoolSame.refl _)
         · have : c1.connProp = (c1, .ok) := by simp [Conn.connProp, hd1]
           rw [this, andThen_ok]
-          exact Or.inl ⟨rfl, rfl, rfl, rfl, rfl⟩
+          exact Or.inl ⟨rfl, rfl, rfl, rfl, rfl, fun _ h => h⟩
       have hab : PSorDisc c1 c1.autobegin := by
         cases ht : c1.transaction with
         | none => simpa [Conn.autobegin, Conn.begin, ht] using hbr
